@@ -201,7 +201,7 @@ def worker(ctx):
 def run(env):
     quick = env.tier == "quick"
     stats = core.run_workers(__name__, "worker", PROP, env.tier, env.seed, env.driver, env.hooks_on,
-                             40 if quick else 500, {"units_per_worker": 1500 if quick else 40000})
+                             40 if quick else 500, {"units_per_worker": 6000 if quick else 40000})
     return core.finish(PROP, env.tier, env.seed, LEVEL, stats, env.t0, RULE, min_conclusive=1000 if quick else 10000,
                        assumptions=["the group key .g is read from the printed row (pipelines either print the input or select .g=g)",
                                     "text output of an object is its concise JSON text"])
